@@ -71,10 +71,15 @@ def events(fn, prefix, key=None):
     return res, n[0], firsts
 
 
-def run_preempted(fn_a, fn_b, at, prefix, timeout=60):
+def run_preempted(fn_a, fn_b, at, prefix, timeout=60, suspend=2.0):
     """Returns (result_a, result_b, fired, where) or None when a thread got
     stuck.  Results are ('ok', value) / ('exc', exception).  at=0: B simply
-    runs after A."""
+    runs after A.
+
+    If B does not finish within `suspend` seconds while A is suspended (B
+    waits for something A holds, e.g. a lock - blocking is legitimate), A is
+    resumed and both run on freely; the outcomes are still judged, `fired`
+    is then 'blocked'."""
     b_go, b_done = threading.Event(), threading.Event()
     res = {}
     n = [0]
@@ -89,8 +94,8 @@ def run_preempted(fn_a, fn_b, at, prefix, timeout=60):
             where[0] = (os.path.relpath(frame.f_code.co_filename, prefix),
                         frame.f_lineno)
             b_go.set()
-            if not b_done.wait(timeout):
-                res['stuck'] = True
+            if not b_done.wait(suspend):
+                fired[0] = 'blocked'
 
     tracer, st_ = _tracer(prefix, on_line)
 
@@ -119,8 +124,8 @@ def run_preempted(fn_a, fn_b, at, prefix, timeout=60):
     tb = threading.Thread(target=thread_b, daemon=True)
     ta.start()
     tb.start()
-    ta.join(timeout * 3)
-    tb.join(timeout * 3)
-    if 'stuck' in res or 'a' not in res or 'b' not in res:
+    ta.join(timeout)
+    tb.join(timeout)
+    if 'a' not in res or 'b' not in res:
         return None
     return res['a'], res['b'], fired[0], where[0]
